@@ -30,6 +30,13 @@ def client_bodies(crate):
         yield b
 
 
+def wrapper_param(where, k, default):
+    """Name of the k-th parameter of ResetSequence::into_stream_with_retry(input, src, retry, timeout) as the source has it."""
+    crate = getattr(where, "crate", where)
+    outer = crate.bodies.get(STREAM + "into_stream_with_retry") if crate is not None and hasattr(crate, "bodies") else None
+    return (outer.local_name(k) if outer is not None else None) or default
+
+
 def awaits_of(b):
     out = []
     for bb, t in b.calls():
@@ -54,7 +61,7 @@ def classify_await(b, ex, t, fty):
             streamexpr = srcs[0][2][0]
             if any(x[0] == "call" and x[1].startswith(STREAM) for x in walk(streamexpr)):
                 return "stream-next", "ResetSequence stream"
-            if any(x[0] in ("path", "var") and x[1] == "retry" for x in walk(streamexpr)):
+            if any(x[0] in ("path", "var") and x[1] == wrapper_param(b, 3, "retry") for x in walk(streamexpr)):
                 return "stream-next", "retry stream (budget checked at the call sites)"
             return "raw", "next() of %s" % show(streamexpr)[:80]
         return "raw", s
@@ -157,7 +164,7 @@ def duration_positive(crate, e, ex=None):
         if lo_hi and lo_hi[0] > 0:
             return True, "%s(%s) in [%d, %d]" % (e[1].rsplit("::", 1)[-1], show(e[2][0])[:60], lo_hi[0], lo_hi[1])
         return False, "%s not provably positive" % show(e)[:80]
-    if e[0] in ("path", "var") and e[1] == "timeout":
+    if e[0] in ("path", "var") and e[1] == wrapper_param(crate, 4, "timeout"):
         return True, "caller-supplied timeout parameter (checked at its call sites)"
     return False, show(e)[:80]
 
@@ -314,7 +321,7 @@ def arith_mentions_config(e, depth=0):
         return False
     if k in ("path", "proj"):
         flds = e[2]
-        if "feig_config" in flds or (k == "path" and e[1] == "config"):
+        if "feig_config" in flds:
             return True
         if k == "proj":
             return arith_mentions_config(e[1], depth + 1)
